@@ -386,6 +386,10 @@ class Lane(LaneBase):
         import random
         rng = random.Random(case.get('sub', 0))
         gs = [build(s) for s in case['graphs']]
+        from harness import gen as _gen
+        for k, g in enumerate(gs):
+            if k != 1:          # one operand is queried heavily first, the other stays fresh: equality must not care
+                _gen.query_noise(g, ('c07', k, case.get('sub', 0), len(case['graphs'][k]['nodes'])))
         toks = [impl.enc_graph(g) for g in gs]
         abss = [abstract(g) for g in gs]
         lines, out, oracle = [], [], []
